@@ -136,13 +136,17 @@ func CommentState(l *lexer) stateFn {
 		}
 	} else {
 		//start with /*
+		l.next()
+		l.next()
+	comment:
 		for {
 			r := l.next()
-			if r == '*' {
+			// the comment ends at the first "*/"; the '*' may be the last of a run ("**/")
+			for r == '*' {
 				r = l.next()
 				if r == '/' {
 					l.ignore()
-					break
+					break comment
 				}
 			}
 			if r == eof {
